@@ -18,7 +18,9 @@ LATS = [0.0, 30.0, -30.0, 60.0, -60.0, 89.9999, -89.9999, 90.0, -90.0, 1e-9, -1e
 LONS = [0.0, 90.0, -90.0, 180.0, -180.0, 11.57, -123.456]
 HS = [-1e4, 0.0, 678.9, 1e4, 1e6]
 ORIGINS = [(48.137, 11.576, 519.0), (0.0, 0.0, 0.0), (90.0, 0.0, 100.0), (-33.9, -180.0, 1e4), (89.9999, 77.0, -50.0), (0.0, 180.0, 2e5), (-90.0, 45.0, 0.0)]
-OFFSETS = [(1.0, 2.0, 3.0), (-150.0, 80.5, 12.25), (1e3, -2e4, 5e2), (1e6, 1e6, -1e5), (0.0, 0.0, 10.0), (-3e5, 0.0, 0.0), (0.0, 1e-3, 0.0)]
+OFFSETS = [(1.0, 2.0, 3.0), (-150.0, 80.5, 12.25), (1e3, -2e4, 5e2), (1e6, 1e6, -1e5), (0.0, 0.0, 10.0), (-3e5, 0.0, 0.0), (0.0, 1e-3, 0.0),
+           # the origin itself, and targets almost at the zenith / nadir at long range
+           (0.0, 0.0, 0.0), (0.01, 0.0, 1e6), (-0.02, 0.005, -5e5), (0.0, 0.0, -7.5e5)]
 ANGLES = [0.0, 33.0, 90.0, -120.0, 180.0, 359.0]
 
 
@@ -83,7 +85,7 @@ def starts(frame, k):
             la, lo, h = LATS[(k + i) % len(LATS)], LONS[(k + 2 * i) % len(LONS)], HS[(k + i) % len(HS)]
             pts.append(tuple(FR.geodetic2ecef(la, lo, h)))
         return pts
-    return [OFFSETS[(k + i) % len(OFFSETS)] for i in range(5)]
+    return [OFFSETS[(k + i) % len(OFFSETS)] for i in range(7)]
 
 
 def replay_paths(args):
@@ -132,6 +134,29 @@ def replay_paths(args):
                 t.resid("cartesian", d / scale)
                 if not d <= lim:
                     t.fail("C17|%s|start-not-recovered" % "->".join(path), dict(case, got=cur, diff=d))
+        # the same identity path for a LIST of points: all of them are taken forward first (the results are kept as returned), then
+        # all of them back -- a result handed out earlier is the caller's and stays what it was
+        if len(path) == 2:
+            pts = [tuple(float(c) for c in p) for p in starts(frame, pi + k0)]
+            org = ORIGINS[pi % len(ORIGINS)]
+            ang = ANGLES[pi % len(ANGLES)]
+            o = core.outcome(lambda: [apply(path[0], p, org, ang) for p in pts])
+            if o[0] == "ok":
+                held = o[1]
+                o2 = core.outcome(lambda: [apply(path[1], tuple(float(c) for c in np.asarray(h, dtype=float)), org, ang) for h in held])
+                if o2[0] == "ok":
+                    for p, bk in zip(pts, o2[1]):
+                        bk = tuple(float(c) for c in np.asarray(bk, dtype=float))
+                        t.calls += 2
+                        if frame == "GEO":
+                            pole = abs(p[0]) >= 89.9999
+                            good = abs(bk[0] - p[0]) <= 1e-6 and (pole or abs(((bk[1] - p[1]) + 180.0) % 360.0 - 180.0) <= 1e-9) and abs(bk[2] - p[2]) <= 1e-2
+                        else:
+                            scale = max(1.0, max(abs(c) for c in p))
+                            good = maxdiff(bk, p) <= (0.1 if geo_in_path else 1e-9 * scale)
+                        if not good:
+                            t.fail("C17|%s|list-of-points-not-recovered" % "->".join(path), {"path": path, "start": p, "got": bk, "origin": org})
+                            break
         if len(t.samples) < 2:
             t.samples.append({"identity_path": path, "start_frame": frame})
     return t
